@@ -117,7 +117,7 @@ func bigSlotVal(i int, gen int) []byte {
 // alphabet: operations, block templates, histories
 
 type Op struct {
-	K    string `json:"k"`              // nonce | slot | code | suicide | bal | bigslots
+	K    string `json:"k"`              // nonce | slot | code | suicide | bal | bigslots | snap (Snapshot) | revert (RevertToSnapshot of the innermost open snapshot)
 	A    int    `json:"a"`              // account index
 	N    uint64 `json:"n,omitempty"`    // nonce / balance / number of big slots
 	Key  string `json:"key,omitempty"`  // slot key name
@@ -175,6 +175,40 @@ func templates(thorough bool) []tmpl {
 		{name: "T7", ops: []Op{{K: "suicide", A: 0}, {K: "nonce", A: 2, N: 9}, {K: "code", A: 2, Code: "empty"},
 			{K: "slot", A: 2, Key: "S0"}}},
 	}
+	// In-block journal activity before the commit (Snapshot / RevertToSnapshot as the executors use
+	// them around every transaction and call frame); the model snapshot is the post-revert state.
+	sn, rv := Op{K: "snap"}, Op{K: "revert"}
+	t = append(t,
+		// op(v1); Snapshot; op(v2); Revert -- for code, a slot (overwritten), a new slot, the nonce
+		tmpl{name: "J1", ops: []Op{{K: "nonce", A: 0, N: 11}, {K: "code", A: 0, Code: "c100a"}, {K: "slot", A: 0, Key: "K0", Val: "VA"},
+			sn, {K: "code", A: 0, Code: "c100b"}, {K: "slot", A: 0, Key: "K0", Val: "VB"}, {K: "slot", A: 0, Key: "K1", Val: "VA"},
+			{K: "nonce", A: 0, N: 12}, rv}},
+		// Snapshot; op(v1); Revert; op(v2) -- incl. an account creation that is reverted and done again
+		tmpl{name: "J2", ops: []Op{sn, {K: "nonce", A: 1, N: 21}, {K: "code", A: 1, Code: "c100b"}, {K: "slot", A: 1, Key: "K0", Val: "VB"}, rv,
+			{K: "nonce", A: 1, N: 22}, {K: "code", A: 1, Code: "c100a"}, {K: "slot", A: 1, Key: "K1", Val: "VA"}}},
+		// nested: Snapshot; op; Snapshot; op (slot cleared, code replaced, account destroyed); Revert inner
+		tmpl{name: "J3", ops: []Op{{K: "nonce", A: 2, N: 31}, sn, {K: "slot", A: 2, Key: "S0", Val: "vs"}, {K: "code", A: 2, Code: "c100b"},
+			sn, {K: "slot", A: 2, Key: "S0"}, {K: "slot", A: 2, Key: "S1", Val: "vs"}, {K: "code", A: 2, Code: "c100a"}, {K: "suicide", A: 2}, rv}},
+		// everything reverted on accounts the block does not change otherwise (creation, code, slot,
+		// destruction, balance), then one surviving balance change
+		tmpl{name: "J4", ops: []Op{sn, {K: "nonce", A: 0, N: 41}, {K: "code", A: 0, Code: "c24k0"}, {K: "slot", A: 0, Key: "K2", Val: "VB"},
+			{K: "suicide", A: 1}, {K: "bal", A: 2, N: 9}, rv, {K: "bal", A: 1, N: 4}}},
+	)
+	if thorough {
+		t = append(t,
+			// inner revert, more changes, outer revert; a different account survives
+			tmpl{name: "J5", ops: []Op{sn, {K: "nonce", A: 0, N: 51}, {K: "slot", A: 0, Key: "K0", Val: "VA"}, sn, {K: "slot", A: 0, Key: "K0", Val: "VB"}, rv,
+				{K: "code", A: 0, Code: "c100a"}, rv, {K: "nonce", A: 2, N: 52}, {K: "slot", A: 2, Key: "K0", Val: "VL"}}},
+			// a reverted code change on an account that may carry code from an older block
+			tmpl{name: "J6", ops: []Op{{K: "nonce", A: 1, N: 61}, sn, {K: "code", A: 1, Code: "c100b"}, {K: "slot", A: 1, Key: "K0"}, rv,
+				{K: "slot", A: 1, Key: "K2", Val: "VA"}}},
+			// reverted creation, then a real destruction; a reverted 24 KB code on another account
+			tmpl{name: "J7", ops: []Op{sn, {K: "nonce", A: 0, N: 71}, rv, {K: "suicide", A: 0}, {K: "nonce", A: 2, N: 72}, sn, {K: "code", A: 2, Code: "c24k1"}, rv}},
+			// 24 KB code set, replaced inside a snapshot, reverted
+			tmpl{name: "J8", ops: []Op{{K: "nonce", A: 0, N: 81}, {K: "code", A: 0, Code: "c24k2"}, sn, {K: "code", A: 0, Code: "c24k3"},
+				{K: "bigslots", A: 0, N: 40, Gen: 3}, rv}},
+		)
+	}
 	if thorough {
 		big2 := []Op{}
 		for i := 0; i < nAcct; i++ {
@@ -199,25 +233,41 @@ func templates(thorough bool) []tmpl {
 }
 
 func init() {
-	// the model assumes that nothing touches an account after its destruction inside one block
-	for _, th := range []bool{false, true} {
-		for _, t := range templates(th) {
-			dead := map[int]bool{}
-			for _, o := range t.ops {
-				if dead[o.A] && o.K != "bal" {
-					panic("template " + t.name + ": operation on an account destroyed in the same block")
+	// Template sanity (journal-aware, done by running the model): nothing touches an account after the
+	// block destroyed it, every revert has an open snapshot, and every account left with storage or
+	// code by a template also gets a positive nonce from it (see templates()).
+	for _, t := range templates(true) {
+		for _, allExist := range []bool{false, true} {
+			m := newModel()
+			if allExist {
+				for i := range m.A {
+					m.A[i].Nonce = 1
 				}
-				if o.K == "suicide" {
-					dead[o.A] = true
+			}
+			m.beginBlock()
+			touched := [nAcct]bool{}
+			for _, o := range t.ops {
+				m.apply(o) // panics on a dead account / missing snapshot
+			}
+			for _, o := range t.ops {
+				if o.K == "nonce" && o.N > 0 {
+					touched[o.A] = true
+				}
+			}
+			if !allExist {
+				for i := range m.A {
+					if (len(m.A[i].Slots) > 0 || m.A[i].Code != nil) && (m.A[i].Nonce == 0 || !touched[i]) {
+						panic("template " + t.name + ": account left with storage/code but without a positive nonce")
+					}
 				}
 			}
 		}
 	}
 }
 
-// histories enumerates, in order of length, all sequences of 1..maxLen templates.  Parent of block
-// i > 0 (allForks): every earlier block or the empty state, i.e. all fork shapes; otherwise the
-// previous block, plus for the last block the block before the previous one / the empty state.
+// histories enumerates, in order of length, all sequences of 1..maxLen templates x fork shapes.
+// Two blocks: the second on the first or on the empty state.  Three blocks: a chain whose last block
+// sits on the second, on the first (sibling of the second) or -- moreForks -- on the empty state.
 func histories(ts []tmpl, maxLen int, allForks bool, maxBig int, visit func(idx int64, h History, nbig int) bool) {
 	var idx int64
 	var rec func(h History, nbig int, want int) bool
@@ -237,13 +287,14 @@ func histories(ts []tmpl, maxLen int, allForks bool, maxBig int, visit func(idx 
 				continue
 			}
 			parents := []int{i - 1}
-			if i > 0 {
+			switch {
+			case i == 0:
+			case want <= 2:
+				parents = append(parents, -1) // i == 1: the empty state
+			case i == want-1:
+				parents = append(parents, i-2) // sibling of the previous block
 				if allForks {
-					for p := i - 2; p >= -1; p-- {
-						parents = append(parents, p)
-					}
-				} else if i == want-1 {
-					parents = append(parents, i-2)
+					parents = append(parents, -1)
 				}
 			}
 			for _, p := range parents {
@@ -274,10 +325,18 @@ type mAcct struct {
 type model struct {
 	A   [nAcct]mAcct
 	Bal [nAcct]uint64
+
+	// per block: accounts destroyed by this block (part of what a revert restores) and the stack of
+	// deep copies taken at "snap" (the boring journal)
+	dead  [nAcct]bool
+	stack []*model
 }
 
+// beginBlock forgets the in-block bookkeeping of the parent block.
+func (m *model) beginBlock() { m.dead, m.stack = [nAcct]bool{}, nil }
+
 func (m *model) clone() *model {
-	n := &model{Bal: m.Bal}
+	n := &model{Bal: m.Bal, dead: m.dead}
 	for i := range m.A {
 		n.A[i].Nonce = m.A[i].Nonce
 		n.A[i].Code = m.A[i].Code
@@ -298,6 +357,20 @@ func newModel() *model {
 }
 
 func (m *model) apply(o Op) {
+	switch o.K {
+	case "snap":
+		m.stack = append(m.stack, m.clone())
+		return
+	case "revert":
+		saved := m.stack[len(m.stack)-1]
+		rest := m.stack[:len(m.stack)-1]
+		*m = *saved
+		m.stack = rest
+		return
+	}
+	if m.dead[o.A] && o.K != "bal" {
+		panic("template: operation on an account destroyed earlier in the same block")
+	}
 	a := &m.A[o.A]
 	switch o.K {
 	case "nonce":
@@ -323,13 +396,20 @@ func (m *model) apply(o Op) {
 		if a.Nonce > 0 {
 			a.Nonce, a.Code, a.Slots = 0, nil, map[string][]byte{}
 			m.Bal[o.A] = 0
+			m.dead[o.A] = true
 		}
 	}
 }
 
-func applyReal(st *account.AccountDB, o Op) {
+func applyReal(st *account.AccountDB, o Op, snaps *[]int) {
 	ad := accts[o.A]
 	switch o.K {
+	case "snap":
+		*snaps = append(*snaps, st.Snapshot())
+	case "revert":
+		id := (*snaps)[len(*snaps)-1]
+		*snaps = (*snaps)[:len(*snaps)-1]
+		st.RevertToSnapshot(id)
 	case "nonce":
 		st.SetNonce(ad, o.N)
 	case "slot":
@@ -534,9 +614,11 @@ func runHistoryEx(h History, scale, failAt, mapVar int, reexec bool) (tr *trace)
 			parentRoot = tr.roots[blk.Parent]
 			snap = tr.snaps[blk.Parent].clone()
 		}
+		snap.beginBlock()
 		for _, o := range blk.Ops {
 			snap.apply(o)
 		}
+		snap.stack = nil // snapshots still open at the commit are simply dropped
 		var root common.Hash
 		var cerr error
 		retried := false
@@ -547,19 +629,15 @@ func runHistoryEx(h History, scale, failAt, mapVar int, reexec bool) (tr *trace)
 				cerr = fmt.Errorf("open parent: %v", err)
 				return
 			}
+			var snapIDs []int
 			for _, o := range blk.Ops {
-				applyReal(st, o)
+				applyReal(st, o, &snapIDs)
 			}
 			// Oracle guard (never a C03 verdict): what is readable from the state object before the
 			// commit must be what the model says (accounts destroyed in this block excepted: they stay
 			// readable until the commit deletes them).  A disagreement means the model does not describe
 			// this history; the history is cut here.  The guard does not touch the commit machinery.
-			var skip [nAcct]bool
-			for _, o := range blk.Ops {
-				if o.K == "suicide" {
-					skip[o.A] = true
-				}
-			}
+			skip := snap.dead
 			if f, d := compareAPIEx(st, snap, &skip); f != "" {
 				guard = fmt.Sprintf("block %d %s: %s", bi, f, d)
 				return
@@ -580,8 +658,9 @@ func runHistoryEx(h History, scale, failAt, mapVar int, reexec bool) (tr *trace)
 						cerr = fmt.Errorf("open parent again: %v", err)
 						return
 					}
+					snapIDs = nil
 					for _, o := range blk.Ops {
-						applyReal(st, o)
+						applyReal(st, o, &snapIDs)
 					}
 				}
 				cerr = commit()
@@ -1099,7 +1178,7 @@ func run(c *fw.Ctx) {
 	capped := false
 	var unit int64
 	never := func() bool { return false }
-	histories(ts, 3, true, maxBig, func(_ int64, h History, nbig int) bool {
+	histories(ts, 3, c.Thorough(), maxBig, func(_ int64, h History, nbig int) bool {
 		scales := []int{scaleReal, scaleFine}
 		if nbig > 0 {
 			scales = []int{scaleReal, scaleMid}
@@ -1109,6 +1188,9 @@ func run(c *fw.Ctx) {
 		}
 		for _, sc := range scales {
 			for _, mv := range mapVars {
+				if mv >= 2 && len(h.Blocks) == 3 {
+					continue // the alternating orders only for the shorter histories
+				}
 				if mv != 0 && sc == scaleReal && nbig == 0 {
 					continue // one physical write per commit: the order inside it is invisible
 				}
@@ -1249,7 +1331,7 @@ func main() {
 	fw.Main(fw.Check{
 		ID: "C03", Level: "fault_enumeration",
 		Rule: "evaluation = (history, write-granularity, map-order variant, prefix p of the physical write log) with all acknowledged and all on-disk-top-node roots cold-opened and walked, " +
-			"plus (history, failing write p) re-commit cases; histories = all sequences of 1..3 block templates (quick 8, thorough 12 templates; at most 1 / 2 oversized blocks) x every choice of parent state for every block (any earlier root or the empty state: linear chains and all fork shapes); " +
+			"plus (history, failing write p) re-commit cases; histories = all sequences of 1..3 block templates (quick 12, thorough 20 templates, among them 4 / 8 with in-block Snapshot/RevertToSnapshot activity; at most 1 / 2 oversized blocks) x fork shapes (2 blocks: second on the first or on the empty state; 3 blocks: last block on the second, on the first = sibling fork committed after its competitor, thorough also on the empty state); " +
 			"non-trivial = prefix strictly inside one commit (not at a block boundary, not 0) or a write fault that was actually injected",
 		Assumptions: []string{
 			"one Batch.Write / Put / Delete is atomic and ordered (LevelDB journal semantics); torn writes inside one batch and fsync loss on power failure are outside the bound",
